@@ -491,6 +491,9 @@ def main_run(mod, tier: str, seed: int) -> int:
         mod.run(h)
         return h.finish()
     except Inconclusive as e:
+        if h.stats.violations:  # an earlier tier already found a reproducible violation: report it
+            print("note: a later tier was inconclusive (%s)" % str(e)[:200], file=sys.stderr)
+            return h.finish()
         print("INCONCLUSIVE %s: %s" % (mod.PID, e), file=sys.stderr)
         return 2
     except Exception:
